@@ -5,8 +5,8 @@ bump unmoved and moves toward the true centre
 
 Statements are about `SleapVerif.Peaks.globalRough` (the **repaired** `find_global_peaks_rough`,
 fixes/C07-flat-argmax.patch: first maximum of the row-major flattening, unravelled),
-`globalRoughAsIs` (the function as it is on the pinned tree: separate argmaxes of the column
-maxima and of the row maxima) and `globalRefineFlat`/`globalPeaks` (`find_global_peaks` with
+`globalRoughAsIs` (the function as it **was** before the repair f45cc18: separate argmaxes of the column
+maxima and of the row maxima; kept as a regression record) and `globalRefineFlat`/`globalPeaks` (`find_global_peaks` with
 `refinement="integral"`), tied to the code by `harness/c07.py`.  Every ordered field `R`, every
 batch shape with `h, w ≥ 1`, every threshold, every patch size `q ≥ 1` — odd (the crop reads cells)
 or even (the crop reads means of four cells, `Peaks.cropZ`).
@@ -53,7 +53,7 @@ theorem global_first_max (thr : R) (h w : Nat) (img : Nat → Nat → R) (x y : 
 example : globalRough1 (R := Rat) (1/10) 4 4 (fun i j => if (i = 3 ∧ j = 0) ∨ (i = 0 ∧ j = 3) then 1 else 0)
     = ⟨some (3, 0), 1⟩ := by decide +kernel
 
-/-- **`global_attains_max` is false of the code as it is** (finding F-C07): with the maximum 1 at
+/-- **`global_attains_max` is false of the code as it was before the repair** (finding F-C07, fixed in f45cc18): with the maximum 1 at
 (x0,y3) and (x3,y0) of a 4×4 map the as-is detector reports cell (0,0), which holds 0, with value 1. -/
 theorem global_attains_max_counterexample : ¬ AttainsMax (R := Rat) globalRoughAsIs1 := by
   intro H
@@ -154,12 +154,102 @@ example : refinePoint (R := Rat) 3 3 (fun i j => if i = 1 ∧ j = 1 then 1 else 
 example : refinePoint (R := Rat) 5 5 (fun i j => if i = 2 ∧ j = 2 then 1 else if i = 2 ∨ j = 2 then 1/2 else 1/4) 4 2 2
     = some (2, 2) := by decide +kernel
 
-/-- **Refinement moves toward the true centre** (pairing argument `b ↔ q−1−b`, no `exp` needed),
-**every patch size `q`, odd or even**: for *any* even, radially non-increasing profile `g(d²)` —
-Gaussians of every σ included — centred at `(cx+δx, cy+δy)` and a crop that lies inside the map
-(`q/2 ≤ cx`, `cx + q/2 < w`, same in y), the refined point is displaced from the rough cell
-`(cx,cy)` in the direction of the true centre, in x and in y separately (and is not displaced
-when the offset is 0). -/
+/-- the same clause stated on the **map**, as the property reads: a map that is mirror-symmetric about
+the cell's column and row (`img i (cx−d) = img i (cx+d)`, `img (cy−d) j = img (cy+d) j` for
+`d ≤ q/2`) with the crop inside the map is refined to the cell itself. -/
+theorem global_refine_symmetric_fixed_of_map (h w : Nat) (img : Nat → Nat → R) (q cx cy : Nat)
+    (hx0 : q / 2 ≤ cx) (hx1 : cx + q / 2 < w) (hy0 : q / 2 ≤ cy) (hy1 : cy + q / 2 < h)
+    (hsx : ∀ i d, i < h → d ≤ q / 2 → img i (cx - d) = img i (cx + d))
+    (hsy : ∀ j d, j < w → d ≤ q / 2 → img (cy - d) j = img (cy + d) j)
+    (hz : patchSum q (patch h w img q cx cy) < 0 ∨ 0 < patchSum q (patch h w img q cx cy)) :
+    refinePoint h w img q cx cy = some ((cx : R), (cy : R)) := by
+  apply global_refine_symmetric_fixed h w img q cx cy hz
+  · exact cropZ_symm_of_colSymm (colSymm_of_map img hx0 hx1 hsx)
+  · intro a b ha hb
+    have := cropZ_symm_of_colSymm (colSymm_of_map (h := w) (w := h) (fun i j => img j i) (cy := cx) hy0 hy1 hsy) b a hb ha
+    rw [patch_transpose h w img q cx cy (q - 1 - a) b, patch_transpose h w img q cx cy a b]
+    exact this
+
+/-- **Refinement moves toward the true centre**, x axis (pairing argument `b ↔ q−1−b`, no `exp`
+needed), **every patch size `q`, odd or even**: for *any* even, radially non-increasing profile
+`g(d²)` — Gaussians of every σ included — centred at `(cx+δx, cy+δy)`, the refined x is displaced
+from the rough cell in the direction of the true centre (not displaced when `δx = 0`).  Needs the
+crop to stay inside the map **along x only** (`q/2 ≤ cx`, `cx + q/2 < w`): rows beyond the top or
+bottom border read zeros, which are mirror-symmetric in x. -/
+theorem global_refine_toward_centre_x (h w : Nat) (img : Nat → Nat → R) (g : R → R) (q cx cy : Nat) (δx δy : R)
+    (hx0 : q / 2 ≤ cx) (hx1 : cx + q / 2 < w) (hcy : cy < h)
+    (himg : ∀ i j, i < h → j < w → img i j = g (((j : R) - (cx + δx))^2 + ((i : R) - (cy + δy))^2))
+    (anti : ∀ u v, 0 ≤ u → u ≤ v → g v ≤ g u)
+    (hz : 0 < patchSum q (patch h w img q cx cy)) :
+    ∃ px py, refinePoint h w img q cx cy = some (px, py) ∧ (0 ≤ δx → (cx : R) ≤ px) ∧ (δx ≤ 0 → px ≤ cx) := by
+  have B : BumpX h w img g q cx cy δx δy := ⟨hx0, hx1, hcy, himg⟩
+  refine ⟨_, _, by unfold refinePoint; rw [integralOffsets_of_pos q _ hz]; rfl, ?_, ?_⟩
+  · intro hδ
+    have := div_nonneg (B.xNum_nonneg anti hδ) (le_of_lt hz)
+    simp only; linarith
+  · intro hδ
+    have := div_nonpos_of_nonpos_of_nonneg (B.xNum_nonpos anti hδ) (le_of_lt hz)
+    simp only; linarith
+
+/-- y axis: needs the crop inside the map along y only. -/
+theorem global_refine_toward_centre_y (h w : Nat) (img : Nat → Nat → R) (g : R → R) (q cx cy : Nat) (δx δy : R)
+    (hy0 : q / 2 ≤ cy) (hy1 : cy + q / 2 < h) (hcx : cx < w)
+    (himg : ∀ i j, i < h → j < w → img i j = g (((j : R) - (cx + δx))^2 + ((i : R) - (cy + δy))^2))
+    (anti : ∀ u v, 0 ≤ u → u ≤ v → g v ≤ g u)
+    (hz : 0 < patchSum q (patch h w img q cx cy)) :
+    ∃ px py, refinePoint h w img q cx cy = some (px, py) ∧ (0 ≤ δy → (cy : R) ≤ py) ∧ (δy ≤ 0 → py ≤ cy) := by
+  have B := BumpX.ofTranspose (p := q) hy0 hy1 hcx himg
+  have hy := yNum_eq_xNum_patch_transpose h w img q cx cy
+  refine ⟨_, _, by unfold refinePoint; rw [integralOffsets_of_pos q _ hz]; rfl, ?_, ?_⟩
+  · intro hδ
+    have := B.xNum_nonneg anti hδ
+    rw [← hy] at this
+    have := div_nonneg this (le_of_lt hz)
+    simp only; linarith
+  · intro hδ
+    have := B.xNum_nonpos anti hδ
+    rw [← hy] at this
+    have := div_nonpos_of_nonpos_of_nonneg this (le_of_lt hz)
+    simp only; linarith
+
+/-- strict, x axis: a strictly decreasing profile and `δx ≠ 0` give a non-zero move in the right
+direction (patch size ≥ 2; crop inside the map along x). -/
+theorem global_refine_toward_centre_strict_x (h w : Nat) (img : Nat → Nat → R) (g : R → R) (q cx cy : Nat) (δx δy : R)
+    (hq : 2 ≤ q) (hx0 : q / 2 ≤ cx) (hx1 : cx + q / 2 < w) (hcy : cy < h)
+    (himg : ∀ i j, i < h → j < w → img i j = g (((j : R) - (cx + δx))^2 + ((i : R) - (cy + δy))^2))
+    (santi : ∀ u v, 0 ≤ u → u < v → g v < g u)
+    (hz : 0 < patchSum q (patch h w img q cx cy)) :
+    ∃ px py, refinePoint h w img q cx cy = some (px, py) ∧ (0 < δx → (cx : R) < px) ∧ (δx < 0 → px < cx) := by
+  have B : BumpX h w img g q cx cy δx δy := ⟨hx0, hx1, hcy, himg⟩
+  refine ⟨_, _, by unfold refinePoint; rw [integralOffsets_of_pos q _ hz]; rfl, ?_, ?_⟩
+  · intro hδ
+    have := div_pos (B.xNum_pos hq santi hδ) hz
+    simp only; linarith
+  · intro hδ
+    have := div_neg_of_neg_of_pos (B.xNum_neg hq santi hδ) hz
+    simp only; linarith
+
+theorem global_refine_toward_centre_strict_y (h w : Nat) (img : Nat → Nat → R) (g : R → R) (q cx cy : Nat) (δx δy : R)
+    (hq : 2 ≤ q) (hy0 : q / 2 ≤ cy) (hy1 : cy + q / 2 < h) (hcx : cx < w)
+    (himg : ∀ i j, i < h → j < w → img i j = g (((j : R) - (cx + δx))^2 + ((i : R) - (cy + δy))^2))
+    (santi : ∀ u v, 0 ≤ u → u < v → g v < g u)
+    (hz : 0 < patchSum q (patch h w img q cx cy)) :
+    ∃ px py, refinePoint h w img q cx cy = some (px, py) ∧ (0 < δy → (cy : R) < py) ∧ (δy < 0 → py < cy) := by
+  have B := BumpX.ofTranspose (p := q) hy0 hy1 hcx himg
+  have hy := yNum_eq_xNum_patch_transpose h w img q cx cy
+  refine ⟨_, _, by unfold refinePoint; rw [integralOffsets_of_pos q _ hz]; rfl, ?_, ?_⟩
+  · intro hδ
+    have := B.xNum_pos hq santi hδ
+    rw [← hy] at this
+    have := div_pos this hz
+    simp only; linarith
+  · intro hδ
+    have := B.xNum_neg hq santi hδ
+    rw [← hy] at this
+    have := div_neg_of_neg_of_pos this hz
+    simp only; linarith
+
+/-- both axes at once (crop inside the map on both). -/
 theorem global_refine_toward_centre (h w : Nat) (img : Nat → Nat → R) (g : R → R) (q cx cy : Nat) (δx δy : R)
     (hx0 : q / 2 ≤ cx) (hx1 : cx + q / 2 < w) (hy0 : q / 2 ≤ cy) (hy1 : cy + q / 2 < h)
     (himg : ∀ i j, i < h → j < w → img i j = g (((j : R) - (cx + δx))^2 + ((i : R) - (cy + δy))^2))
@@ -167,32 +257,13 @@ theorem global_refine_toward_centre (h w : Nat) (img : Nat → Nat → R) (g : R
     (hz : 0 < patchSum q (patch h w img q cx cy)) :
     ∃ px py, refinePoint h w img q cx cy = some (px, py) ∧
       (0 ≤ δx → (cx : R) ≤ px) ∧ (δx ≤ 0 → px ≤ cx) ∧ (0 ≤ δy → (cy : R) ≤ py) ∧ (δy ≤ 0 → py ≤ cy) := by
-  have B : BumpMap h w img g q cx cy δx δy := ⟨hx0, hx1, hy0, hy1, himg⟩
-  have hy := yNum_eq_xNum_patch_transpose h w img q cx cy
-  refine ⟨_, _, by unfold refinePoint; rw [integralOffsets_of_pos q _ hz]; rfl, ?_, ?_, ?_, ?_⟩
-  · intro hδ
-    have := B.xNum_nonneg anti hδ
-    have : 0 ≤ xNum q (patch h w img q cx cy) / patchSum q (patch h w img q cx cy) := div_nonneg this (le_of_lt hz)
-    simp only; linarith
-  · intro hδ
-    have := B.xNum_nonpos anti hδ
-    have : xNum q (patch h w img q cx cy) / patchSum q (patch h w img q cx cy) ≤ 0 :=
-      div_nonpos_of_nonpos_of_nonneg this (le_of_lt hz)
-    simp only; linarith
-  · intro hδ
-    have := B.transpose.xNum_nonneg anti hδ
-    rw [← hy] at this
-    have : 0 ≤ yNum q (patch h w img q cx cy) / patchSum q (patch h w img q cx cy) := div_nonneg this (le_of_lt hz)
-    simp only; linarith
-  · intro hδ
-    have := B.transpose.xNum_nonpos anti hδ
-    rw [← hy] at this
-    have : yNum q (patch h w img q cx cy) / patchSum q (patch h w img q cx cy) ≤ 0 :=
-      div_nonpos_of_nonpos_of_nonneg this (le_of_lt hz)
-    simp only; linarith
+  obtain ⟨px, py, h1, h2, h3⟩ := global_refine_toward_centre_x h w img g q cx cy δx δy hx0 hx1 (by omega) himg anti hz
+  obtain ⟨px', py', h1', h4, h5⟩ := global_refine_toward_centre_y h w img g q cx cy δx δy hy0 hy1 (by omega) himg anti hz
+  rw [h1] at h1'
+  simp only [Option.some.injEq, Prod.mk.injEq] at h1'
+  obtain ⟨rfl, rfl⟩ := h1'
+  exact ⟨px, py, h1, h2, h3, h4, h5⟩
 
-/-- strict version: a strictly decreasing profile and a non-zero offset give a non-zero move in
-the right direction (patch size ≥ 2). -/
 theorem global_refine_toward_centre_strict (h w : Nat) (img : Nat → Nat → R) (g : R → R) (q cx cy : Nat) (δx δy : R)
     (hq : 2 ≤ q) (hx0 : q / 2 ≤ cx) (hx1 : cx + q / 2 < w) (hy0 : q / 2 ≤ cy) (hy1 : cy + q / 2 < h)
     (himg : ∀ i j, i < h → j < w → img i j = g (((j : R) - (cx + δx))^2 + ((i : R) - (cy + δy))^2))
@@ -200,27 +271,12 @@ theorem global_refine_toward_centre_strict (h w : Nat) (img : Nat → Nat → R)
     (hz : 0 < patchSum q (patch h w img q cx cy)) :
     ∃ px py, refinePoint h w img q cx cy = some (px, py) ∧
       (0 < δx → (cx : R) < px) ∧ (δx < 0 → px < cx) ∧ (0 < δy → (cy : R) < py) ∧ (δy < 0 → py < cy) := by
-  have B : BumpMap h w img g q cx cy δx δy := ⟨hx0, hx1, hy0, hy1, himg⟩
-  have hy := yNum_eq_xNum_patch_transpose h w img q cx cy
-  refine ⟨_, _, by unfold refinePoint; rw [integralOffsets_of_pos q _ hz]; rfl, ?_, ?_, ?_, ?_⟩
-  · intro hδ
-    have := B.xNum_pos hq santi hδ
-    have : 0 < xNum q (patch h w img q cx cy) / patchSum q (patch h w img q cx cy) := div_pos this hz
-    simp only; linarith
-  · intro hδ
-    have := B.xNum_neg hq santi hδ
-    have : xNum q (patch h w img q cx cy) / patchSum q (patch h w img q cx cy) < 0 := div_neg_of_neg_of_pos this hz
-    simp only; linarith
-  · intro hδ
-    have := B.transpose.xNum_pos hq santi hδ
-    rw [← hy] at this
-    have : 0 < yNum q (patch h w img q cx cy) / patchSum q (patch h w img q cx cy) := div_pos this hz
-    simp only; linarith
-  · intro hδ
-    have := B.transpose.xNum_neg hq santi hδ
-    rw [← hy] at this
-    have : yNum q (patch h w img q cx cy) / patchSum q (patch h w img q cx cy) < 0 := div_neg_of_neg_of_pos this hz
-    simp only; linarith
+  obtain ⟨px, py, h1, h2, h3⟩ := global_refine_toward_centre_strict_x h w img g q cx cy δx δy hq hx0 hx1 (by omega) himg santi hz
+  obtain ⟨px', py', h1', h4, h5⟩ := global_refine_toward_centre_strict_y h w img g q cx cy δx δy hq hy0 hy1 (by omega) himg santi hz
+  rw [h1] at h1'
+  simp only [Option.some.injEq, Prod.mk.injEq] at h1'
+  obtain ⟨rfl, rfl⟩ := h1'
+  exact ⟨px, py, h1, h2, h3, h4, h5⟩
 
 /-- hypotheses satisfiable, odd and even patch: the profile `g(u) = 9 - u` on a 5×5 map at ℚ, centre
 offset (1/4, 0) from cell (2,2): the refined x moves right of the cell for `q = 3` and `q = 4`. -/
@@ -239,6 +295,49 @@ example : ∀ q ∈ [3, 4], ∃ px py, refinePoint (R := Rat) 5 5
     (fun i j _ _ => rfl) (fun u v _ huv => by linarith) hz
   exact ⟨px, py, h, h1 (by norm_num)⟩
 
+/-- **The rough detector finds the right cell on a bump**: for a strictly decreasing profile whose
+true centre lies within half a cell of `(cx,cy)` (`|δx|, |δy| < ½`) and whose peak value is not
+below the threshold, `find_global_peaks_rough` reports exactly `(cx,cy)`.  (For a merely
+non-increasing profile this is false: a flat disc can put the first maximal cell elsewhere.) -/
+theorem global_bump_rough_is_centre (thr : R) (h w : Nat) (img : Nat → Nat → R) (g : R → R) (cx cy : Nat) (δx δy : R)
+    (hcx : cx < w) (hcy : cy < h)
+    (himg : ∀ i j, i < h → j < w → img i j = g (((j : R) - (cx + δx))^2 + ((i : R) - (cy + δy))^2))
+    (santi : ∀ u v, 0 ≤ u → u < v → g v < g u) (hδx : |δx| < 1 / 2) (hδy : |δy| < 1 / 2)
+    (hthr : ¬ img cy cx < thr) :
+    globalRough1 thr h w img = ⟨some (cx, cy), img cy cx⟩ := by
+  obtain ⟨h1, h2⟩ := flatArg_of_strict_max (img := img) hcx hcy
+    (fun i j hi hj hne => bump_cell_lt hcx hcy himg santi hδx hδy hi hj hne)
+  rw [globalRough1_eq, h1, h2, threshold_some _ _ _ _ hthr]
+
+/-- **The Gaussian clause about the pipeline** `find_global_peaks(refinement="integral")`: channel
+`(s,c)` holds a strictly decreasing bump centred at `(cx+δx, cy+δy)`, `|δ| < ½`, peak value not below
+the threshold, crop inside the map ⇒ the channel is valid, its rough cell is `(cx,cy)` and its
+refined point lies strictly on the side of the true centre in x and in y. -/
+theorem global_peaks_toward_centre (thr : R) (q : Nat) (b : Batch R) {s c : Nat} (hs : s < b.S) (hc : c < b.C)
+    (g : R → R) (cx cy : Nat) (δx δy : R) (hq : 2 ≤ q)
+    (hx0 : q / 2 ≤ cx) (hx1 : cx + q / 2 < b.w) (hy0 : q / 2 ≤ cy) (hy1 : cy + q / 2 < b.h)
+    (himg : ∀ i j, i < b.h → j < b.w → b.v s c i j = g (((j : R) - (cx + δx))^2 + ((i : R) - (cy + δy))^2))
+    (santi : ∀ u v, 0 ≤ u → u < v → g v < g u) (hδx : |δx| < 1 / 2) (hδy : |δy| < 1 / 2)
+    (hthr : ¬ b.v s c cy cx < thr)
+    (hz : 0 < patchSum q (patch b.h b.w (b.v s c) q cx cy)) :
+    ∃ px py, globalPeaks (globalRough thr b) q b s c = ⟨some (cx, cy), some (some (px, py)), b.v s c cy cx⟩ ∧
+      (0 < δx → (cx : R) < px) ∧ (δx < 0 → px < cx) ∧ (0 < δy → (cy : R) < py) ∧ (δy < 0 → py < cy) ∧
+      (δx = 0 → px = cx) ∧ (δy = 0 → py = cy) := by
+  have hr : globalRough thr b s c = ⟨some (cx, cy), b.v s c cy cx⟩ :=
+    global_bump_rough_is_centre thr b.h b.w (b.v s c) g cx cy δx δy (by omega) (by omega) himg santi hδx hδy hthr
+  obtain ⟨px, py, h1, h2, h3, h4, h5⟩ := global_refine_toward_centre_strict b.h b.w (b.v s c) g q cx cy δx δy hq
+    hx0 hx1 hy0 hy1 himg santi hz
+  obtain ⟨px', py', h1', w2, w3, w4, w5⟩ := global_refine_toward_centre b.h b.w (b.v s c) g q cx cy δx δy
+    hx0 hx1 hy0 hy1 himg (anti_of_santi santi) hz
+  rw [h1] at h1'
+  simp only [Option.some.injEq, Prod.mk.injEq] at h1'
+  obtain ⟨rfl, rfl⟩ := h1'
+  refine ⟨px, py, ?_, h2, h3, h4, h5, ?_, ?_⟩
+  · rw [global_refine_scatter _ q b hs hc, hr]
+    simp [h1]
+  · intro h0; exact le_antisymm (w3 (le_of_eq h0)) (w2 (le_of_eq h0.symm))
+  · intro h0; exact le_antisymm (w5 (le_of_eq h0)) (w4 (le_of_eq h0.symm))
+
 /-- The statement as the property text reads it — **without** the "crop inside the map" hypothesis of
 `global_refine_toward_centre`.  False of the code: `global_refine_toward_centre_border_counterexample`. -/
 def TowardCentreEverywhere (R : Type) [Field R] [LinearOrder R] [IsStrictOrderedRing R] : Prop :=
@@ -254,19 +353,29 @@ quarter pixel to the right of the last column. -/
 def borderMap : Nat → Nat → Rat :=
   fun i j => 9 - (((j : Rat) - (2 + 1/4)) * ((j : Rat) - (2 + 1/4)) + ((i : Rat) - 1) * ((i : Rat) - 1))
 
-/-- **Toward-centre is false when the patch crosses the map border** (finding F-C07b).  On
-`borderMap` the detector reports the right cell (2,1) (the maximum, nearest to the true centre
-2.25), but the 3×3 patch reads the zero padding beyond the last column, so the refined x is
-`1119/722 ≈ 1.55`: moved *left* by 0.45 px although the true centre lies to the *right* — the
-error grows from 0.25 to 0.70 px.  (The half-patch bound of C06 is unaffected: zero padding keeps
-the patch non-negative, `refine_bounded_partial` has no interior hypothesis.) -/
+/-- second F-C07b witness: the same bump centred **exactly on** the border cell (2,1) — symmetric about it. -/
+def borderSymMap : Nat → Nat → Rat :=
+  fun i j => 9 - (((j : Rat) - 2) * ((j : Rat) - 2) + ((i : Rat) - 1) * ((i : Rat) - 1))
+
+/-- **Toward-centre and symmetric-unmoved are false when the patch crosses the map border**
+(finding F-C07b).  On `borderMap` the detector reports the right cell (2,1) (the maximum, nearest
+to the true centre 2.25), but the 3×3 patch reads the zero padding beyond the last column, so the
+refined x is `1119/722 ≈ 1.55`: moved *left* by 0.45 px although the true centre lies to the
+*right* — the error grows from 0.25 to 0.70 px.  On `borderSymMap` (bump symmetric about the
+border cell, δ = 0) the refined x is `72/47 ≈ 1.53`: a symmetric bump centred on a cell is moved by
+0.47 px.  (The half-patch bound of C06 is unaffected: zero padding keeps the patch non-negative,
+`refine_bounded_partial` has no interior hypothesis.) -/
 theorem global_refine_toward_centre_border_counterexample :
     globalRough1 (R := Rat) (1/5) 3 3 borderMap = ⟨some (2, 1), 143/16⟩ ∧
     refinePoint (R := Rat) 3 3 borderMap 3 2 1 = some (1119/722, 1) ∧
+    globalRough1 (R := Rat) (1/5) 3 3 borderSymMap = ⟨some (2, 1), 9⟩ ∧
+    refinePoint (R := Rat) 3 3 borderSymMap 3 2 1 = some (72/47, 1) ∧
     ¬ TowardCentreEverywhere Rat := by
   have h1 : globalRough1 (R := Rat) (1/5) 3 3 borderMap = ⟨some (2, 1), 143/16⟩ := by decide +kernel
   have h2 : refinePoint (R := Rat) 3 3 borderMap 3 2 1 = some (1119/722, 1) := by decide +kernel
-  refine ⟨h1, h2, fun H => ?_⟩
+  have h3 : globalRough1 (R := Rat) (1/5) 3 3 borderSymMap = ⟨some (2, 1), 9⟩ := by decide +kernel
+  have h4 : refinePoint (R := Rat) 3 3 borderSymMap 3 2 1 = some (72/47, 1) := by decide +kernel
+  refine ⟨h1, h2, h3, h4, fun H => ?_⟩
   have hz : 0 < patchSum 3 (patch (R := Rat) 3 3 borderMap 3 2 1) := by decide +kernel
   obtain ⟨px, py, hp, hx, _⟩ := H 3 3 borderMap (fun u => 9 - u) 3 2 1 (1/4) 0 (by omega) (by omega)
     (fun i j _ _ => by simp only [borderMap]; push_cast; ring) (fun u v _ huv => by linarith) hz
